@@ -32,7 +32,7 @@ class C17(core.Check):
     thorough_n = 40000
     rule = ("cases: (enc) body with CR/LF-heavy bytes x chunk sizes x per-chunk extension text x trailers, decoded by parseChunk under a seeded partition; "
             "(chunks) a table of malformed size tokens (sign, 0x, _, unicode digits, blanks, empty) and random near-hex tokens with/without extensions, and mutated encodings; "
-            "(pack) packChunk of piece lists and (wsgi) serving.Responder writing the pieces an application yields, decoded by parseChunk / Respondent, piece sizes random and at/around every "
+            "(req/resp) complete chunked messages that ALSO carry Content-Length header(s) in either order on both sides (chunked wins), and both orders of the close signal; (pack) packChunk of piece lists and (wsgi) serving.Responder writing the pieces an application yields, decoded by parseChunk / Respondent, piece sizes random and at/around every "
             "size constant of the module and its multiples (read from the module); non-trivial = at least one chunk or an error decided; distinct by request line")
     trusted_base = ["translator harness/extract/httpparse.py", "correspondence harness/props/C17.py vs httping.parseChunk",
                     "oracle encodes with its own encoder / httping.packChunk and compares the decoded body, parameters and trailers"]
@@ -56,6 +56,13 @@ class C17(core.Check):
         for cutset in ((50,), (52,), (57,), (61,), (20, 52), tuple(range(1, len(wire)))):
             cs.append(("resp", False, wire, cutset, True, "cf"))
             cs.append(("resp", False, wire, cutset, True, None))
+        for extra in self.FRAMING:
+            for te_first in (True, False):
+                w = self._chunked_response(r0, b"abcdefghi", (3, 4), (), ((b"T", b"v"),), (), extra, te_first)
+                cs.append(("resp", False, w, (25, 70), True, None))
+                cs.append(("resp", False, w + w, (), True, None) if False else ("resp", False, w, (), True, "cf"))
+                q = self._chunked_request(r0, b"abcdefghi", (3, 4), extra, te_first)
+                cs.append(("req", q, (25, 70), None))
         cs += self._boundary_cases(None, big=False)
         return cs
 
@@ -81,17 +88,44 @@ class C17(core.Check):
 
     _resp_bodies = {}
 
-    def _chunked_response(self, rng, body, sizes, exts, trailers, pads):
+    def _chunked_response(self, rng, body, sizes, exts, trailers, pads, extra=(), te_first=True):
+        """a complete chunked response; `extra` are further framing header lines (Content-Length ...) put before or after
+        Transfer-Encoding: chunked wins over any Content-Length (RFC 7230 3.3.3, and the code on main)"""
         w, _ = hp.enc_wire(body, sizes, exts, trailers, pads)
-        wire = b"HTTP/1.1 200 OK\r\nTransfer-Encoding: chunked\r\n\r\n" + w
+        te = [b"Transfer-Encoding: chunked"]
+        hs = te + list(extra) if te_first else list(extra) + te
+        wire = b"HTTP/1.1 200 OK\r\n" + b"\r\n".join(hs) + b"\r\n\r\n" + w
         self._resp_bodies[wire] = body
         return wire
+
+    _req_bodies = {}
+
+    def _chunked_request(self, rng, body, sizes, extra=(), te_first=True):
+        w, _ = hp.enc_wire(body, sizes, (), (), ())
+        te = [b"Transfer-Encoding: chunked"]
+        hs = te + list(extra) if te_first else list(extra) + te
+        wire = b"POST /f HTTP/1.1\r\n" + b"\r\n".join(hs) + b"\r\n\r\n" + w
+        self._req_bodies[wire] = body
+        return wire
+
+    FRAMING = [(), (b"Content-Length: 3",), (b"Content-Length: 0",), (b"Content-Length: 3", b"Content-Length: 5"), (b"content-length: 999",),
+               (b"Content-Length: 3", b"Connection: keep-alive"), (b"Content-Length: x",), (b"Content-Length: -1",)]
 
     def generate(self, rng, n, tier):
         from hio.core.http import httping
         for _ in range(n):
             k = rng.random()
-            if k < 0.08:     # the same coding inside a response, both orders of the close signal and the last parse
+            if k < 0.04:     # framing header combinations on both sides: chunked together with Content-Length(s), either order
+                body = hp.rand_body(rng, rng.choice([0, 1, 3, 5, 17, rng.randrange(1, 60)]))
+                sizes = tuple(rng.choice([1, 2, 3, 16, 40]) for _ in range(rng.randrange(0, 5)))
+                extra = rng.choice(self.FRAMING)
+                if rng.random() < 0.5:
+                    wire = self._chunked_response(rng, body, sizes, (), (), (), extra, rng.random() < 0.5)
+                    yield ("resp", False, wire, hp.cuts_for(rng, wire, rng.choice(["none", "two", "uniform", "term"])), True, None)
+                else:
+                    wire = self._chunked_request(rng, body, sizes, extra, rng.random() < 0.5)
+                    yield ("req", wire, hp.cuts_for(rng, wire, rng.choice(["none", "two", "uniform", "term"])), None)
+            elif k < 0.08:     # the same coding inside a response, both orders of the close signal and the last parse
                 body = hp.rand_body(rng, rng.choice([1, 2, 15, 17, rng.randrange(1, 80)]))
                 sizes = tuple(rng.choice([1, 2, 3, 15, 16, 17, 40]) for _ in range(rng.randrange(0, 6)))
                 wire = self._chunked_response(rng, body, sizes, (), (), ())
@@ -153,6 +187,21 @@ class C17(core.Check):
         bad = []
         if case[0] == "wsgi":
             return self._oracle_wsgi(case, obs)
+        if case[0] == "req":
+            # a complete chunked request (possibly with Content-Length headers as well): chunked wins, the body is the decoded body
+            cut, whole = obs
+            body = self._req_bodies.get(case[1])
+            if cut != whole:
+                bad.append("fragmented-differs-from-whole")
+            if hp.has_escape(obs):
+                bad.append("exception-escaped")
+            if body is not None:
+                msgs, tail = cut
+                if len(msgs) != 1 or msgs[0][0] != "ok" or msgs[0][5] != body or not msgs[0][9]:
+                    bad.append("decoded-body-differs")
+                elif tail[0] != "more" or tail[1] != b"":
+                    bad.append("leftover-after-last-chunk")
+            return bad
         if case[0] == "resp":
             # a complete chunked response read in pieces, the close signalled before or after the parse of the last read:
             # the decoded body is the whole body either way, nothing left over
@@ -248,7 +297,7 @@ class C17(core.Check):
 
     @hp.safe(True)
     def nontrivial(self, case, obs):
-        if case[0] == "resp":
+        if case[0] in ("resp", "req"):
             return len(obs[0][0]) >= 1
         if case[0] == "wsgi":
             return len(obs[0][0]) >= 1
@@ -256,8 +305,10 @@ class C17(core.Check):
 
     @hp.safe(list)
     def features(self, case, obs):
+        if case[0] == "req":
+            return ["req", "framing:te+cl" if b"ontent-" in case[1].lower() else "framing:te"]
         if case[0] == "resp":
-            return ["resp", "resp:close-first" if case[5] == "cf" else "resp:close-after"]
+            return ["resp", "resp:close-first" if case[5] == "cf" else "resp:close-after", "framing:te+cl" if b"content-length" in case[2].lower() else "framing:te"]
         if case[0] == "wsgi":
             return ["wsgi", f"pieces:{min(len(case[1]), 4)}"] + [f"piece-size:{self._bucket(len(p))}" for p in case[1]]
         if case[0] == "pack":
